@@ -21,7 +21,7 @@ RULE = ("four kinds of multi-consumer blocks (launch block with 3-6 due consumer
         "distribution.GetCommunityTax) x every call index of the block, each executed with and without the fault; plus the random "
         "C10/C11 histories with a random fault in their last block; non-trivial = the fault fired; distinct = distinct "
         "(block kind, fault, call index, result, affected consumer)")
-LEVEL_NOTE = ("provider side only; assumption: the staking keeper's bonded-set and last-power queries "
+LEVEL_NOTE = ("provider side (Props/C19.v) and consumer side (Props/C19Consumer.v: two stated hypotheses with refutation witnesses, see DESIGN.md section 16); assumption: the staking keeper's bonded-set and last-power queries "
               "(GetBondedValidatorsByPower, GetLastValidatorPower, MaxValidators) do not fail during EndBlock -- "
               "EndBlockVSU returns such an error by design (ProviderValidatorUpdates and the validator-set computation "
               "of QueueVSCPackets are not per-consumer operations); the real keeper fails there only on a corrupted "
